@@ -2596,6 +2596,13 @@ hsStateDetermined:
             }
             if (fragLen != hsLen)
             {
+                if (fragLen == 0)
+                {
+                    /* An empty fragment of a non-empty message adds nothing.
+                       It must not take a fragHeaders slot: the walk over the
+                       fragments in dtlsHsHashFragMsg advances by fragLen */
+                    return MATRIXSSL_SUCCESS;
+                }
 /*
                 Have a fragmented message here.  Allocate if first time
                 seen and assign msn.  Can only deal with single fragmented
